@@ -1247,7 +1247,12 @@ def position_tags(c, i):
     ph = math.degrees(math.atan2(p[1], p[0]))
     tags = []
     eps = 1e-9 * max(c["r"][-1], c["z"][-1] - c["z"][0])
-    if c["r"][0] > 0 and r < c["r"][0] - eps:
+    rotated = any(c["pose"]["rotvec"]) or bool(c.get("prot"))
+    if r < 1e-2 * c["r"][-1] and (r > 0 or rotated):      # the zone of the C01 finding tiny-r: 0 < r/r2 < 1e-2
+        # within rounding of the axis but not exactly on it (a rotated pose turns an on-axis observer into one at
+        # r ~ 1e-16 .. 1e-13 of the size): the near-axis cancellation of the CylinderSegment closed form
+        tags.append("near-axis")
+    elif c["r"][0] > 0 and r < c["r"][0] - eps:
         tags.append("bore")
     elif r <= eps:
         tags.append("axis")
@@ -1273,6 +1278,10 @@ def signature(c, fl, failed=None):
     trig = [fld, fl["region"]]
     if fld != "raises":
         tags = position_tags(c, min(fl["obs_index"], len(c["obs"]) - 1))
+        if "near-axis" in tags and fld in "BH":
+            # one mechanism (known finding, cf. the C01 'tiny-r' findings): neither region, polarization class, scale
+            # nor the angle description matter; J and M are not affected (a J failure keeps its full signature)
+            return fl["clause"] + "/BH:near-axis-rounding"
         if tags:
             trig.append(",".join(tags))
         if c["family"] == "cylinder_partition" and fld in "BH":
